@@ -12,8 +12,8 @@
   number of octets consumed so far (`pos`), the per-command decoder fields (`err`, `lit`, `crlf`,
   `tail`, `listDepth`), the connection state, the events produced so far (reversed) and three
   ghosts: `roles` (for every octet consumed, how the server consumed it: as command text, as
-  literal payload, or as a raw continuation line), `depth`/`cur` (recursion depth of the recursive
-  parsers) and marker events (`quotedCRLF`, `liberal`, `buffered n`).
+  literal payload, or as a raw continuation line) and marker events (`quotedCRLF`, `liberal`,
+  `buffered n`, `appendLit n accepted`, `depthAt n` = a recursive parser runs n Go frames deep).
 
   What Go does by blocking on the connection is "the stream ends here" in the model: the event
   `eof` marks the first time the server wanted an octet that was not there; what follows it is what
@@ -89,11 +89,13 @@ inductive Event where
   | close                      -- the server closed the connection
   | eof                        -- the server wanted an octet beyond the end of the stream
   | opaque                     -- the model stops: handler outside its signature table
-  | fuel                       -- the model ran out of fuel (never happens; explicit, not a default)
+  | fuel (site : Nat)          -- the model ran out of fuel (0: the command loop, 1: an inner loop);
+                               -- never happens; explicit, not a default
   | quotedCRLF                 -- ghost: a quoted string swallowed CR or LF
   | liberal                    -- ghost: CRLF() accepted " \r\n" or a lone LF
   | buffered (n : Nat)         -- ghost: a literal of n octets was buffered in memory
   | appendLit (n : Nat) (accepted : Bool)  -- ghost: APPEND saw a literal of n octets
+  | depthAt (n : Nat)          -- ghost: a recursive parser (List callback, search key) runs n deep
 deriving DecidableEq, Repr
 
 /-- which repairs are in effect -/
@@ -127,7 +129,6 @@ structure S where
   st : St := .notAuth
   evs : List Event := []         -- reversed
   roles : List Role := []        -- reversed
-  depth : Nat := 0               -- ghost: deepest recursion reached
 deriving Repr
 
 /-! ## constants -/
@@ -147,11 +148,13 @@ def S.emit (s : S) (e : Event) : S := { s with evs := e :: s.evs }
 
 /-- consume k octets in role r -/
 def S.take (s : S) (k : Nat) (r : Role) : S :=
+  let k := min k s.inp.length
   { s with inp := s.inp.drop k, pos := s.pos + k, roles := List.replicate k r ++ s.roles }
 
 def S.sawEof (s : S) : S := (s.emit .eof).fail .eof
 
-def S.enter (s : S) (cur : Nat) : S := if cur > s.depth then { s with depth := cur } else s
+/-- ghost: a recursive parser was entered `cur` Go frames deep -/
+def S.enter (s : S) (cur : Nat) : S := s.emit (.depthAt cur)
 
 /-! ## character classes -/
 
@@ -433,7 +436,7 @@ def keyKind (k : Bytes) : KeyKind :=
 mutual
 /-- imapserver/search.go readSearchKey(Depth): an atom key, or a parenthesised list of keys -/
 def searchKey (cfg : Cfg) : Nat → Nat → Nat → S → Option Err × S
-  | 0, _, _, s => (some .internal, s.emit .fuel)
+  | 0, _, _, s => (some .internal, s.emit (.fuel 1))
   | fuel + 1, d, cur, s =>
     let s := s.enter cur
     match s.func isKeyChar with
@@ -454,7 +457,7 @@ def searchKey (cfg : Cfg) : Nat → Nat → Nat → S → Option Err × S
 
 /-- the loop of Decoder.List around readSearchKey -/
 def searchList (cfg : Cfg) : Nat → Nat → Nat → S → Option Err × S
-  | 0, _, _, s => (some .internal, s.emit .fuel)
+  | 0, _, _, s => (some .internal, s.emit (.fuel 1))
   | fuel + 1, d, cur, s =>
     match searchKey cfg fuel d cur s with
     | (some e, s) => (some e, s)
@@ -468,7 +471,7 @@ def searchList (cfg : Cfg) : Nat → Nat → Nat → S → Option Err × S
 
 /-- readSearchKeyWithAtom(Depth) over the modelled keys -/
 def searchKeyAtom (cfg : Cfg) : Nat → Nat → Nat → Bytes → S → Option Err × S
-  | 0, _, _, _, s => (some .internal, s.emit .fuel)
+  | 0, _, _, _, s => (some .internal, s.emit (.fuel 1))
   | fuel + 1, d, cur, k, s =>
     match keyKind k with
     | .leaf => (none, s)
@@ -495,7 +498,7 @@ end
 
 /-- the flag list of APPEND: Decoder.List(ExpectFlag); not recursive -/
 def flagItems : Nat → S → Option Err × S
-  | 0, s => (some .internal, s.emit .fuel)
+  | 0, s => (some .internal, s.emit (.fuel 1))
   | fuel + 1, s =>
     -- internal.ExpectFlag
     let (sys, s) := s.accept 92
@@ -681,7 +684,7 @@ def hRename (cfg : Cfg) (s : S) : Option Err × S :=
 
 /-- handleEnable: (SP atom)* CRLF -/
 def enableArgs : Nat → S → Option Err × S
-  | 0, s => (some .internal, s.emit .fuel)
+  | 0, s => (some .internal, s.emit (.fuel 1))
   | fuel + 1, s =>
     match s.sp with
     | (false, s) =>
@@ -692,6 +695,28 @@ def enableArgs : Nat → S → Option Err × S
       match s.expectAtom with
       | (none, s) => (s.err, s)
       | (some _, s) => enableArgs fuel s
+
+/-- the literal of APPEND (append.go:72-107): the size limit and acceptLiteral come before any
+    payload octet is read -/
+def appendLiteral (cfg : Cfg) (m : Bytes) (s : S) : Option Err × S :=
+  match s.literalReader cfg.fx with
+  | (none, s) => let s := s.expect false; (s.err, s)
+  | (some (n, ns), s) =>
+    if n > appendLimit then (some .no, s.emit (.appendLit n false))
+    else
+      match acceptLiteral cfg n ns s with
+      | (some e, s) => (some e, s.emit (.appendLit n false))
+      | (none, s) =>
+        let s := s.emit (.appendLit n true)
+        let (v, s) := s.payload n
+        if !checkAuth s then
+          let (_, s) := s.crlfP
+          (some .bad, s)
+        else
+          let s := s.emit (call .append [m, v])
+          match s.expectCRLF with
+          | (false, s) => if cfg.fx.append then (s.err, s) else (some .silent, s)
+          | (true, s) => (none, s)
 
 /-- handleAppend (append.go) -/
 def hAppend (cfg : Cfg) (s : S) : Option Err × S :=
@@ -716,24 +741,7 @@ def hAppend (cfg : Cfg) (s : S) : Option Err × S :=
             | (some b, s) =>
               if b == 34 || isAtomChar b || b == 126 then (some .internal, s.emit .opaque)
               else
-                match s.literalReader cfg.fx with
-                | (none, s) => let s := s.expect false; (s.err, s)
-                | (some (n, ns), s) =>
-                  if n > appendLimit then (some .no, s.emit (.appendLit n false))
-                  else
-                    match acceptLiteral cfg n ns s with
-                    | (some e, s) => (some e, s.emit (.appendLit n false))
-                    | (none, s) =>
-                      let s := s.emit (.appendLit n true)
-                      let (v, s) := s.payload n
-                      if !checkAuth s then
-                        let (_, s) := s.crlfP
-                        (some .bad, s)
-                      else
-                        let s := s.emit (call .append [m, v])
-                        match s.expectCRLF with
-                        | (false, s) => if cfg.fx.append then (s.err, s) else (some .silent, s)
-                        | (true, s) => (none, s)
+                appendLiteral cfg m s
 
 /-- the SASL exchange of handleAuthenticate for PLAIN: `resp` is the response in hand -/
 def plainFinish (resp : Bytes) (s : S) : Option Err × S :=
@@ -799,7 +807,7 @@ def hIdle (cfg : Cfg) (s : S) : Option Err × S :=
 
 /-- handleSearch over the modelled keys -/
 def searchKeys (cfg : Cfg) : Nat → S → Option Err × S
-  | 0, s => (some .internal, s.emit .fuel)
+  | 0, s => (some .internal, s.emit (.fuel 1))
   | fuel + 1, s =>
     match searchKey cfg (2 * s.inp.length + 8) 0 1 s with
     | (some e, s) => (some e, s)
@@ -826,92 +834,112 @@ inductive Handler where
   | unknown
   | opaque
 
+def hLogout (s : S) : Option Err × S := noArgs s fun s => (none, { (s.emit .bye) with st := .logout })
+def hNoop (s : S) : Option Err × S := noArgs s fun s => (none, s)
+def hStartTLS (s : S) : Option Err × S := noArgs s fun s => (some .no, s)
+def hUnauthenticate (s : S) : Option Err × S := noArgs s fun s =>
+  needAuth s fun s => (none, { (s.emit (call .unauthenticate)) with st := .notAuth })
+def hNamespace (s : S) : Option Err × S := noArgs s fun s => needAuth s fun s => (none, s.emit (call .namespace))
+def hUnselect (expunge : Bool) (s : S) : Option Err × S := noArgs s fun s =>
+  if s.st != .selected then (some .bad, s)
+  else
+    let s := if expunge then s.emit (call .expunge) else s
+    (none, { (s.emit (call .unselect)) with st := .auth })
+def hExpunge (s : S) : Option Err × S := noArgs s fun s =>
+  if s.st != .selected then (some .bad, s) else (none, s.emit (call .expunge))
+def hEnable (s : S) : Option Err × S := enableArgs (s.inp.length + 1) s
+def hMailbox (cfg : Cfg) (fn : Fn) (s : S) : Option Err × S :=
+  oneMailbox cfg s fun m s => needAuth s fun s => (none, s.emit (call fn [m]))
+
+/-- the switch of Conn.readCommand (conn.go:205-281) -/
+def handlerTable (cfg : Cfg) : List (Bytes × Handler) :=
+  [ (k_NOOP, .run hNoop), (k_CHECK, .run hNoop), (k_CAPABILITY, .run hNoop),
+    (k_LOGOUT, .run hLogout), (k_STARTTLS, .run hStartTLS), (k_UNAUTHENTICATE, .run hUnauthenticate),
+    (k_NAMESPACE, .run hNamespace), (k_CLOSE, .run (hUnselect true)), (k_UNSELECT, .run (hUnselect false)),
+    (k_EXPUNGE, .run hExpunge), (k_ENABLE, .run hEnable), (k_LOGIN, .run (hLogin cfg)),
+    (k_SELECT, .run (hSelect cfg false)), (k_EXAMINE, .run (hSelect cfg true)), (k_CREATE, .run (hCreate cfg)),
+    (k_DELETE, .run (hMailbox cfg .delete)), (k_SUBSCRIBE, .run (hMailbox cfg .subscribe)),
+    (k_UNSUBSCRIBE, .run (hMailbox cfg .unsubscribe)), (k_RENAME, .run (hRename cfg)),
+    (k_APPEND, .run (hAppend cfg)), (k_AUTHENTICATE, .run (hAuthenticate cfg)), (k_IDLE, .run (hIdle cfg)),
+    (k_SEARCH, .run (hSearch cfg)), (k_UID_SEARCH, .run (hSearch cfg)),
+    (k_STATUS, .opaque), (k_LIST, .opaque), (k_LSUB, .opaque), (k_FETCH, .opaque), (k_UID_FETCH, .opaque),
+    (k_STORE, .opaque), (k_UID_STORE, .opaque), (k_COPY, .opaque), (k_UID_COPY, .opaque),
+    (k_MOVE, .opaque), (k_UID_MOVE, .opaque), (k_UID_EXPUNGE, .opaque) ]
+
 def handlerOf (cfg : Cfg) (name : Bytes) : Handler :=
-  let is (n : Bytes) : Bool := name == n
-  if is k_NOOP || is k_CHECK || is k_CAPABILITY then .run fun s => noArgs s fun s => (none, s)
-  else if is k_LOGOUT then .run fun s => noArgs s fun s => (none, { (s.emit .bye) with st := .logout })
-  else if is k_STARTTLS then .run fun s => noArgs s fun s => (some .no, s)
-  else if is k_UNAUTHENTICATE then .run fun s => noArgs s fun s =>
-    needAuth s fun s => (none, { (s.emit (call .unauthenticate)) with st := .notAuth })
-  else if is k_NAMESPACE then .run fun s => noArgs s fun s =>
-    needAuth s fun s => (none, s.emit (call .namespace))
-  else if is k_CLOSE || is k_UNSELECT then .run fun s => noArgs s fun s =>
-    if s.st != .selected then (some .bad, s)
-    else
-      let s := if is k_CLOSE then s.emit (call .expunge) else s
-      (none, { (s.emit (call .unselect)) with st := .auth })
-  else if is k_EXPUNGE then .run fun s => noArgs s fun s =>
-    if s.st != .selected then (some .bad, s) else (none, s.emit (call .expunge))
-  else if is k_ENABLE then .run fun s => enableArgs (s.inp.length + 1) s
-  else if is k_LOGIN then .run (hLogin cfg)
-  else if is k_SELECT then .run (hSelect cfg false)
-  else if is k_EXAMINE then .run (hSelect cfg true)
-  else if is k_CREATE then .run (hCreate cfg)
-  else if is k_DELETE then .run fun s => oneMailbox cfg s fun m s => needAuth s fun s => (none, s.emit (call .delete [m]))
-  else if is k_SUBSCRIBE then .run fun s => oneMailbox cfg s fun m s => needAuth s fun s => (none, s.emit (call .subscribe [m]))
-  else if is k_UNSUBSCRIBE then .run fun s => oneMailbox cfg s fun m s => needAuth s fun s => (none, s.emit (call .unsubscribe [m]))
-  else if is k_RENAME then .run (hRename cfg)
-  else if is k_APPEND then .run (hAppend cfg)
-  else if is k_AUTHENTICATE then .run (hAuthenticate cfg)
-  else if is k_IDLE then .run (hIdle cfg)
-  else if is k_SEARCH || is k_UID_SEARCH then .run (hSearch cfg)
-  else if is k_STATUS || is k_LIST || is k_LSUB || is k_FETCH || is k_UID_FETCH || is k_STORE || is k_UID_STORE
-      || is k_COPY || is k_UID_COPY || is k_MOVE || is k_UID_MOVE || is k_UID_EXPUNGE then .opaque
-  else .unknown
+  match (handlerTable cfg).lookup name with
+  | some h => h
+  | none => .unknown
 
 /-! ## Conn.readCommand and Conn.serve -/
 
+/-- a fresh decoder for every command (conn.go:169) -/
+def S.reset (s : S) : S := { s with err := none, lit := none, crlf := false, tail := [], listDepth := 0 }
+
+/-- `UID` SP sub-command (conn.go:193-201) -/
+def uidName (s : S) : Option Bytes × S :=
+  match s.expectSP with
+  | (false, s) => (none, s)
+  | (true, s) =>
+    match s.expectAtom with
+    | (none, s) => (none, s)
+    | (some sub, s) => (some (k_UID_ ++ upper sub), s)
+
+/-- tag SP name [SP sub-name] (conn.go:187-201): none when the line is unusable, in which case
+    readCommand returns an error and the connection is dropped without a reply -/
+def cmdHeader (s : S) : Option (Bytes × Bytes) × S :=
+  match s.expectAtom with
+  | (none, s) => (none, s)
+  | (some tag, s) =>
+    if tag.contains 43 then (none, s.fail .expect)       -- "+" is not allowed in a tag
+    else
+      match s.expectSP with
+      | (false, s) => (none, s)
+      | (true, s) =>
+        match s.expectAtom with
+        | (none, s) => (none, s)
+        | (some name0, s) =>
+          if upper name0 == k_UID then
+            match uidName s with
+            | (none, s) => (none, s)
+            | (some name, s) => (some (tag, name), s)
+          else (some (tag, upper name0), s)
+
+/-- run the handler: (the unknown-command BYE is pending, the handler's error, the state) -/
+def runHandler (h : Handler) (s : S) : Bool × Option Err × S :=
+  match h with
+  | .run f => let (e, s) := f s; (false, e, s)
+  | _ =>
+    -- unknown command: BAD; before authentication the connection is dropped after the reply
+    if s.st == .notAuth then (true, some .bad, { s with st := .logout })
+    else (false, some .bad, s)
+
+/-- the tail of readCommand (conn.go:283-314): DiscardLine, the unread-literal check, one tagged
+    reply (a handler that answers for itself has already written its OK: same place), BYE -/
+def finishCommand (cfg : Cfg) (tag : Bytes) (byeUnknown : Bool) (e : Option Err) (s : S) : S :=
+  let s := s.discardLine cfg.fx
+  let byeLit := cfg.fx.close && s.unreadNonSync && s.st != .logout
+  let s := if byeLit then { s with st := .logout } else s
+  let s := if e == some .silent then s
+           else s.emit (.tagged tag (match e with | none => .ok | some e => e.cls))
+  let s := if byeLit then s.emit .bye else s
+  if byeUnknown then s.emit .bye else s
+
 /-- one command; returns the state and whether the connection goes on -/
 def readCommand (cfg : Cfg) (s0 : S) : Bool × S :=
-  -- a fresh decoder for every command (conn.go:169)
-  let s := { s0 with err := none, lit := none, crlf := false, tail := [], listDepth := 0 }
-  match s.expectAtom with
+  match cmdHeader s0.reset with
   | (none, s) => (false, s)
-  | (some tag, s) =>
-    if tag.contains 43 then (false, s.fail .expect)       -- "+" is not allowed in a tag
-    else
-    match s.expectSP with
-    | (false, s) => (false, s)
-    | (true, s) =>
-      match s.expectAtom with
-      | (none, s) => (false, s)
-      | (some name0, s) =>
-        let name0 := upper name0
-        let (name?, s) : Option Bytes × S :=
-          if name0 == k_UID then
-            match s.expectSP with
-            | (false, s) => (none, s)
-            | (true, s) =>
-              match s.expectAtom with
-              | (none, s) => (none, s)
-              | (some sub, s) => (some (k_UID_ ++ upper sub), s)
-          else (some name0, s)
-        match name? with
-        | none => (false, s)
-        | some name =>
-          match handlerOf cfg name with
-          | .opaque => (false, s.emit .opaque)
-          | h =>
-            let (byeUnknown, e, s) : Bool × Option Err × S :=
-              match h with
-              | .run f => let (e, s) := f s; (false, e, s)
-              | _ =>
-                if s.st == .notAuth then (true, some .bad, { s with st := .logout })
-                else (false, some .bad, s)
-            if s.evs.head? == some .opaque then (false, s)
-            else
-              let s := s.discardLine cfg.fx
-              let byeLit := cfg.fx.close && s.unreadNonSync && s.st != .logout
-              let s := if byeLit then { s with st := .logout } else s
-              let s := if e == some .silent then s
-                       else s.emit (.tagged tag (match e with | none => .ok | some e => e.cls))
-              let s := if byeLit then s.emit .bye else s
-              let s := if byeUnknown then s.emit .bye else s
-              (true, s)
+  | (some (tag, name), s) =>
+    match handlerOf cfg name with
+    | .opaque => (false, s.emit .opaque)
+    | h =>
+      let (byeUnknown, e, s) := runHandler h s
+      if s.evs.head? == some .opaque then (false, s)
+      else (true, finishCommand cfg tag byeUnknown e s)
 
 /-- the loop of Conn.serve after the greeting -/
 def serveLoop (cfg : Cfg) : Nat → S → S
-  | 0, s => s.emit .fuel
+  | 0, s => s.emit (.fuel 0)
   | fuel + 1, s =>
     if s.st == .logout then s.emit .close
     else if s.evs.head? == some .opaque then s
@@ -934,7 +962,9 @@ def serve (cfg : Cfg) (inp : Bytes) : List Event := (run cfg inp).evs.reverse
 
 def rolesOf (cfg : Cfg) (inp : Bytes) : List Role := (run cfg inp).roles.reverse
 
-def depthOf (cfg : Cfg) (inp : Bytes) : Nat := (run cfg inp).depth
+/-- the deepest recursion of the recursive parsers during the run -/
+def depthOf (cfg : Cfg) (inp : Bytes) : Nat :=
+  (serve cfg inp).foldl (fun m e => match e with | .depthAt n => max m n | _ => m) 0
 
 /-- octets of an ASCII string (drivers and examples; not used by the model itself) -/
 def strBytes (s : String) : Bytes := s.toUTF8.toList.map (·.toNat)
